@@ -12,7 +12,8 @@ import traceback
 import warnings
 
 warnings.filterwarnings("ignore")
-sys.path.insert(0, "/repo")
+REPO = os.environ.get("SRX_REPO", "/repo")
+sys.path.insert(0, REPO)
 VERIF = os.path.dirname(os.path.dirname(os.path.abspath(__file__)))
 sys.path.insert(0, VERIF)
 
@@ -25,8 +26,8 @@ def _profile_functions(run_once):
         if event == "call":
             co = frame.f_code
             fn = co.co_filename
-            if fn.startswith("/repo/desolver") and "/tests/" not in fn:
-                seen.add("%s:%s" % (fn[len("/repo/"):], co.co_qualname if hasattr(co, "co_qualname") else co.co_name))
+            if fn.startswith(REPO + "/desolver") and "/tests/" not in fn:
+                seen.add("%s:%s" % (fn[len(REPO) + 1:], co.co_qualname if hasattr(co, "co_qualname") else co.co_name))
     sys.setprofile(prof)
     try:
         run_once()
